@@ -155,36 +155,56 @@ func runAL3(c *Ctx, s *Sink) {
 	}
 	info := p.TypesInfo
 	found := false
-	ast.Inspect(fd.Body, func(n ast.Node) bool {
-		f, ok := n.(*ast.ForStmt)
-		if !ok || f.Cond == nil || found {
-			return true
+	// the loop may sit in ReverseComplement itself or in a helper of the package it calls (two levels)
+	bodies := []*ast.BlockStmt{fd.Body}
+	seen := map[*ast.FuncDecl]bool{fd: true}
+	for level := 0; level < 2; level++ {
+		for _, b := range append([]*ast.BlockStmt(nil), bodies...) {
+			ast.Inspect(b, func(n ast.Node) bool {
+				if call, ok := n.(*ast.CallExpr); ok {
+					if f := callee(info, call); f != nil && f.Pkg() == p.Types {
+						if d, _ := c.DeclOf(f); d != nil && d.Body != nil && !seen[d] {
+							seen[d] = true
+							bodies = append(bodies, d.Body)
+						}
+					}
+				}
+				return true
+			})
 		}
-		// the loop whose body calls nucComplement
-		calls := 0
-		ast.Inspect(f.Body, func(m ast.Node) bool {
-			if call, ok := m.(*ast.CallExpr); ok && strings.HasSuffix(fullName(callee(info, call)), "/pkg/obiseq.nucComplement") {
-				calls++
+	}
+	for _, body := range bodies {
+		ast.Inspect(body, func(n ast.Node) bool {
+			f, ok := n.(*ast.ForStmt)
+			if !ok || f.Cond == nil || found {
+				return true
+			}
+			// the loop whose body calls nucComplement
+			calls := 0
+			ast.Inspect(f.Body, func(m ast.Node) bool {
+				if call, ok := m.(*ast.CallExpr); ok && strings.HasSuffix(fullName(callee(info, call)), "/pkg/obiseq.nucComplement") {
+					calls++
+				}
+				return true
+			})
+			if calls == 0 {
+				return true
+			}
+			found = true
+			b, ok := ast.Unparen(f.Cond).(*ast.BinaryExpr)
+			switch {
+			case !ok:
+				s.Undecided(nil, key, f.Pos(), "loop condition is not a comparison")
+			case b.Op == token.GTR || b.Op == token.LSS:
+				s.Fail(nil, key, f.Pos(), "the two indexes of the in-place reverse complement stop before they meet (strict comparison): the middle base of an odd-length sequence is never complemented")
+			case calls < 2:
+				s.Fail(nil, key, f.Pos(), "only one of the two swapped bases goes through nucComplement")
+			default:
+				s.Pass(nil, key, f.Pos(), "the loop admits i == j and complements both swapped operands")
 			}
 			return true
 		})
-		if calls == 0 {
-			return true
-		}
-		found = true
-		b, ok := ast.Unparen(f.Cond).(*ast.BinaryExpr)
-		switch {
-		case !ok:
-			s.Undecided(nil, key, f.Pos(), "loop condition is not a comparison")
-		case b.Op == token.GTR || b.Op == token.LSS:
-			s.Fail(nil, key, f.Pos(), "the two indexes of the in-place reverse complement stop before they meet (strict comparison): the middle base of an odd-length sequence is never complemented")
-		case calls < 2:
-			s.Fail(nil, key, f.Pos(), "only one of the two swapped bases goes through nucComplement")
-		default:
-			s.Pass(nil, key, f.Pos(), "the loop admits i == j and complements both swapped operands")
-		}
-		return true
-	})
+	}
 	if !found {
 		s.Undecided(nil, key, fd.Pos(), "no loop calling nucComplement")
 	}
